@@ -13,7 +13,9 @@ RULE = (
     "single-point subsets, repeated get_result on the same runner, a second runner in the same process, an aborted request "
     "(KeyboardInterrupt injected at the n-th convolution, then get_result again on the same runner) and a scribbled first "
     "output (tensors zeroed in place before asking again). Every (observable, point) result is compared bit for bit "
-    "(order keys and their order, values, errors) with the reference. Probes count cache hits/misses/drops. "
+    "(order keys and their order, values, errors) with the reference; in addition every base request is recomputed in a second set of "
+    "worker processes that see the cases in reverse order and another partition, and the bit patterns are compared (process-wide memos). "
+    "Probes count cache hits/misses/drops. "
     "Distinct = (history kind, TMC, scheme, process, PTO); non-trivial = the history contained a cache hit or a cache drop and the compared tensors are non-zero."
 )
 ASSUMPTIONS = ["the point dictionaries of one history are distinct objects unless the history class says otherwise"]
@@ -26,7 +28,7 @@ def budget(tier):
 
 def floor(tier):
     return dict(min_conclusive=20 if tier == "quick" else 250, min_nontrivial=20 if tier == "quick" else 80,
-                classes=HKINDS + ["tmc", "notmc"], probes=["cache_hit", "cache_miss", "drop_cache"], min_compared=200)  # fmt: skip
+                classes=HKINDS + ["tmc", "notmc", "other-process"], probes=["cache_hit", "cache_miss", "drop_cache"], min_compared=200)  # fmt: skip
 
 
 def cases(tier, rng):
@@ -134,8 +136,27 @@ def run_case(case):
     compared = 0
     sample = None
     try:
+        if case.get("ref_only"):
+            # in the second process the twin grid (same size, end points, degree, log mode; other interior nodes) is served FIRST:
+            # a process-wide memo that cannot tell the two grids apart now pollutes the reference itself
+            try:
+                yad.Runner(th, cards.observables(request(names[:1], pts[:2]), xgrid=cards.warp_grid(g["xgrid"]), deg=g["deg"], is_log=g["is_log"], **case["obs"])).get_result()
+            except ValueError:
+                pass
         ref_out = yad.Runner(th, mkobs(request(names, pts))).get_result()
         ref = {(n, i): ref_out[n][i] for n in names for i in range(len(pts))}
+        import hashlib
+
+        hsh = hashlib.sha256()
+        for n in names:
+            for i in range(len(pts)):
+                for o, (v, e) in ref[(n, i)].orders.items():
+                    hsh.update(repr(o).encode())
+                    hsh.update(np.ascontiguousarray(v, dtype=float).tobytes())
+                    hsh.update(np.ascontiguousarray(e, dtype=float).tobytes())
+        ref_digest = hsh.hexdigest()
+        if case.get("ref_only"):
+            return dict(status="held", ref_digest=ref_digest, compared=0)
         nonzero = any(run.absmax(v[0]) > 0 for r in ref.values() for v in r.orders.values())
 
         def judge(hk, out, nlist, plist, before):
@@ -220,4 +241,27 @@ def run_case(case):
                 judge(hk, r.get_result(), names, base_pts, before)
     finally:
         pr.undo()
-    return dict(violations=viol, compared=compared, nontrivial=sorted(nontrivial), classes=sorted(classes), probes=pr.counts, sample=sample)
+    return dict(violations=viol, compared=compared, nontrivial=sorted(nontrivial), classes=sorted(classes), probes=pr.counts, sample=sample, ref_digest=ref_digest)
+
+
+def execute(cases, deadline, progress):
+    """Besides the in-process histories: every base request is also computed in a second set of processes that see the cases in
+    another order and partition.  A process-wide memo that depends on what the process did before (the first grid wins, ...) makes the
+    two bit patterns differ, although every history *inside* one process is consistent."""
+    from .. import env
+    from ..pool import Pool
+
+    results = Pool(PROP, "jit", case_timeout=900).map(cases, deadline, progress)
+    order = list(range(len(cases)))[::-1]
+    sub = [dict(cases[i], ref_only=True) for i in order]
+    other = Pool(PROP, "jit", nworkers=2, case_timeout=600).map(sub, deadline)  # few processes: each one sees many different requests
+    for i, r2 in zip(order, other):
+        r1 = results[i]
+        if not r1 or not r2 or "ref_digest" not in r1 or "ref_digest" not in r2:
+            continue
+        r1.setdefault("classes", []).append("other-process")
+        r1["compared"] = r1.get("compared", 0) + 1
+        if r1["ref_digest"] != r2["ref_digest"]:
+            c = cases[i]
+            r1.setdefault("violations", []).append(dict(sig="history|other-process", what=f"the base request of {c['id']} ({c['names']}, {c['theory']['FNS']}, PTO={c['theory']['PTO']}, TMC={c['theory']['TMC']}) gives different bits in a process that served other requests before (different case order / partition): a process-wide memo leaks between runs"))
+    return results
